@@ -166,6 +166,7 @@ def file_prog(mode, wr, tell, close):
 SPEC = {
     'lean': ['C08', 'Tables'],
     'cases': cases,
+    'big': True,
     'stream': 'C08 spelling stream',
     'rule': 'parse_number / encode_number (checked in batches: one case = 512 integers or words): exhaustive |n| ≤ 2^11 (quick) / 2^20 (thorough), all digit words up to '
             'length 4 / 7, 200 random integers up to 2^4096, powers of 8 ± 1; programs in which one literal is replaced by '
